@@ -1,4 +1,5 @@
 //! Conformance harness for the llfree TLA+ specifications (see /verif/DESIGN.md).
+mod conc;
 mod hook;
 mod seq;
 mod world;
@@ -68,6 +69,53 @@ fn main() {
             let mut out = seq::Out::new();
             seq::c11_runs(&mut out, seed, geti(&m, "runs", 10));
             write_out(&m, &props, &out.lines);
+        }
+        "conc" => {
+            // conc scn=<file> [name=<scenario>] bound=2 limit=4000 pct=0 depth=3 crash=0 every=1 solo=0 stride=1
+            let file = m.get("scn").expect("scn=FILE");
+            let all: serde_json::Value = serde_json::from_str(&std::fs::read_to_string(file).unwrap()).unwrap();
+            let mut out = seq::Out::new();
+            let mut summary = vec![];
+            for v in all.as_array().unwrap() {
+                let nm = v["name"].as_str().unwrap();
+                if let Some(want) = m.get("name") {
+                    if !want.split(',').any(|w| w == nm) {
+                        continue;
+                    }
+                }
+                if let Some(g) = v.get("geo").and_then(|g| g.as_array()) {
+                    let me = format!("th{}{}", world::TH, if world::HO == 11 { "-16k" } else { "" });
+                    if !g.iter().any(|x| x.as_str() == Some(&me)) {
+                        continue;
+                    }
+                }
+                let scn = conc::Scenario::parse(v);
+                let opts = conc::ExecOpts {
+                    keep_ops: false,
+                    crash: geti(&m, "crash", 0) == 1,
+                    crash_every: geti(&m, "every", 1),
+                    max_steps: geti(&m, "maxsteps", 3000),
+                };
+                let mut ex = conc::Explore::new(&scn, &mut out);
+                ex.dfs(geti(&m, "bound", 2), &opts, geti(&m, "limit", 4000));
+                let npct = geti(&m, "pct", 0);
+                if npct > 0 {
+                    ex.pct(seed, npct, geti(&m, "depth", 3), &opts);
+                }
+                let mut nsolo = 0;
+                if geti(&m, "solo", 0) == 1 {
+                    // base schedules: the non-preemptive one per starting thread
+                    let plain = conc::ExecOpts { keep_ops: false, crash: false, crash_every: 1, max_steps: 3000 };
+                    for t0 in 0..scn.threads.len() {
+                        let r = conc::execute(&scn, &mut conc::Strategy::Prefix(vec![t0]), &plain, None);
+                        nsolo += ex.solo_points(&r.steps, geti(&m, "budget", 20000), geti(&m, "stride", 1));
+                    }
+                }
+                summary.push(serde_json::json!({"scn": nm, "execs": ex.execs, "distinct": ex.distinct,
+                    "max_steps": ex.max_steps_seen, "solo": nsolo}));
+            }
+            write_out(&m, &props, &out.lines);
+            println!("{}", serde_json::Value::Array(summary));
         }
         _ => {
             eprintln!("usage: vharness <geo|seq|init|c11|...> key=value ...");
